@@ -24,7 +24,9 @@ Passes == <<
   <<128512>>,                                  \* emoji (unchanged by NFKD)
   <<8486>>, <<937>>,                           \* OHM SIGN / GREEK OMEGA
   <<7835>>, <<383, 775>>,                      \* long s with dot above (NFKD -> s + dot)
-  <<97, 769, 807>>, <<97, 807, 769>>           \* combining marks in two orders (canonical reordering)
+  <<97, 769, 807>>, <<97, 807, 769>>,          \* combining marks in two orders (canonical reordering)
+  <<84, 82, 69, 90, 79, 82, 32>>, <<84, 82, 69, 90, 79, 82, 10>>, <<32>>, <<120, 12288>>, <<32, 108, 101, 97, 100>>,   \* whitespace is significant:
+  <<9, 120, 9>>, <<120, 13, 10>>, <<0>>, <<120, 0, 121>>                                                   \* trailing/leading blanks, NUL
 >>
 Pool == <<228, 8491, 65313, 64257, 178, 54620, 119964, 128512, 97, 776, 32, 49, 241, 937>>
 NFixed == 5 * 2 * Len(Passes)
